@@ -40,6 +40,30 @@ pub fn run(reg: &dyn Registry, ctx: &Ctx) -> Outcome {
         }
     }
 
+    // value-directed deep states: T_ref^k s has a special word pattern for k = 2^8-1, 2^8, 2^16-1, 2^16
+    {
+        let tref = ref_matrix(RefModel::Xor128);
+        let mut starts: Vec<(usize, Vec<u8>)> = Vec::new();
+        for k in [255usize, 256, 65535, 65536] {
+            let tk = tref.pow_big(&refmodels::gf2::BigU::from_u64(k as u64));
+            for t in crate::linear::special_images(128, 32, ctx.seed ^ k as u64) {
+                if let Some(s0) = tk.solve(&t) {
+                    if !s0.is_zero() {
+                        starts.push((k, s0.to_bytes()));
+                    }
+                }
+            }
+        }
+        let res: Vec<_> = starts.par_iter().map(|(k, s0)| lockstep_model(ty, RefModel::Xor128, s0, k + 6)).collect();
+        ctx.add("value_directed_deep_starts", starts.len() as u64);
+        for r in res {
+            match r {
+                Ok(n) => ctx.add("steps_compared", n),
+                Err((what, replay)) => ctx.violation("C04:deep-special", &format!("XorShiftRng: {}", what), replay),
+            }
+        }
+    }
+
     // the linear model: extracted matrix == reference matrix; conformance incl. all weight-3 states
     match lin::extract_and_bind(ty, LinOp::Step, ctx, true, if thorough { 65536 } else { 8192 }) {
         Ok(b) => {
